@@ -152,7 +152,14 @@ fn gen_history(seed: u64, idx: usize, steer_around_known: bool) -> History {
     let mut cfg_touched = false;
     for k in 0..n {
         let mut env: BTreeMap<String, String> = BTreeMap::new();
-        let (tag, code): (String, String) = match g.below(49) {
+        let (tag, code): (String, String) = match g.below(50) {
+            49 => {
+                if steer_around_known {
+                    ("trap-term".into(), "trap 'true' TERM".into())
+                } else {
+                    ("trap-exit".into(), format!("trap 'VS_TRAPPED={}' EXIT", k))
+                }
+            }
             0 => ("export-define".into(), format!("export VE1={}", g.value())),
             1 => ("export-modify".into(), "export VE1=\"${VE1:-none} more\"".into()),
             2 => ("export-unset".into(), "unset VE1".into()),
@@ -293,6 +300,8 @@ fn systematic_histories() -> Vec<History> {
         ),
         ("inherited-empty", "VS_INHERITED=", "true", "VS_INHERITED=again"),
         ("inherited-export-n", "export -n VS_INHERITED", "VS_INHERITED=still-not-exported", "export VS_INHERITED"),
+        // (finding T: the user's EXIT trap replaces the one that writes the state)
+        ("trap-exit", "export VE1=one; trap 'true' EXIT", "VE1=\"$VE1 two\"; VS1=after-trap", "trap - EXIT"),
         // (seed 103 of the sweep: unset, then set again as a plain shell variable)
         ("inherited-unset-then-plain", "unset VS_INHERITED", "VS_INHERITED=", "VS_INHERITED=plain-again"),
         ("inherited-unset-then-export", "unset VS_INHERITED", "true", "export VS_INHERITED=back"),
@@ -599,6 +608,17 @@ fn known_real<'a>(k: &'a KnownFile, h: &History, detail: &str) -> Option<&'a cra
                 }
                 "export-n-of-inherited-variable" => {
                     h.snippets.iter().any(|s| s.tag.starts_with("inherited-export-n")) && detail.contains(INHERITED) && detail.contains("declare -x")
+                }
+                // T: a test case that sets its own EXIT trap replaces scrut's: what that test
+                // case changed is never written, every later test case starts from older state
+                "user-exit-trap" => {
+                    let live: Vec<&Snippet> = h.snippets.iter().filter(|s| s.end != "detached").collect();
+                    let first = live.iter().position(|s| s.tag.starts_with("trap-exit"));
+                    let at = detail
+                        .strip_prefix("after snippet #")
+                        .and_then(|r| r.split(' ').next())
+                        .and_then(|n| n.parse::<usize>().ok());
+                    matches!((first, at), (Some(f), Some(a)) if a > f + 1)
                 }
                 "heredoc-line-looks-like-readonly-declare" => {
                     h.snippets.iter().any(|s| s.tag == "func-heredoc-declare-r") && detail.contains("looks_readonly")
